@@ -6,6 +6,7 @@ import (
 	"fmt"
 	"go/types"
 	"math"
+	"os"
 	"strconv"
 	"strings"
 
@@ -232,9 +233,18 @@ func init() {
 		"fmt.Print":    intrNopTuple2,
 		"fmt.Fprintf":  intrNopTuple2,
 		"fmt.Fprintln": intrNopTuple2,
-		"log.Printf":   intrNop,
-		"log.Println":  intrNop,
-		"log.Print":    intrNop,
+		"log.Printf": func(p *Path, th *Thread, fr *Frame, args []Value) Value {
+			if verifLog {
+				tid := -1
+				if th != nil {
+					tid = th.id
+				}
+				fmt.Fprintf(os.Stderr, "[T%d] %v", tid, intrSprintf(p, th, fr, args))
+			}
+			return nil
+		},
+		"log.Println": intrNop,
+		"log.Print":   intrNop,
 		"log.Fatalf": func(p *Path, th *Thread, fr *Frame, args []Value) Value {
 			panic(targetPanic{mkExtErr("log.Fatalf: " + args[0].(string))})
 		},
@@ -393,6 +403,8 @@ func (p *Path) sprint(args []Value, sep string) string {
 	}
 	return strings.Join(parts, sep)
 }
+
+var verifLog = os.Getenv("VERIF_LOG") != ""
 
 func intrSprintf(p *Path, th *Thread, fr *Frame, args []Value) Value {
 	format := args[0].(string)
